@@ -142,11 +142,30 @@ def lean_run(path, timeout=1800):
         return sh(["lake", "env", "lean", path], cwd=LEAN, timeout=timeout)
 
 
-def grep_forbidden():
-    """Scan our Lean sources for forbidden constructs outside comments."""
+def lean_closure(roots):
+    """Transitive closure of `import SamVerif.*` / `import Driver.*` starting from the given files."""
+    seen, todo = set(), list(roots)
+    while todo:
+        f = todo.pop()
+        if f in seen or not os.path.exists(f):
+            continue
+        seen.add(f)
+        for m in re.findall(r"^import\s+((?:SamVerif|Driver)\.\S+)", open(f, encoding="utf-8").read(), re.M):
+            todo.append(os.path.join(LEAN, *m.split(".")) + ".lean")
+    return sorted(seen)
+
+
+def grep_forbidden(prop=None):
+    """Scan the Lean sources this property depends on (import closure of its audit file and its
+    driver; all sources if prop is None) for forbidden constructs outside comments."""
     hits = []
-    for f in glob.glob(os.path.join(LEAN, "SamVerif", "**", "*.lean"), recursive=True) + \
-            glob.glob(os.path.join(LEAN, "Driver", "*.lean")):
+    if prop:
+        files = lean_closure([os.path.join(LEAN, "SamVerif", "Audit", f"{prop}.lean"),
+                              os.path.join(LEAN, "Driver", f"{prop}.lean")])
+    else:
+        files = glob.glob(os.path.join(LEAN, "SamVerif", "**", "*.lean"), recursive=True) + \
+            glob.glob(os.path.join(LEAN, "Driver", "*.lean"))
+    for f in files:
         depth = 0
         for n, line in enumerate(open(f, encoding="utf-8"), 1):
             code = ""
@@ -194,7 +213,7 @@ def audit(prop):
             res["failed"].append((n, "depends on non-standard axioms: " + ", ".join(sorted(bad))))
         else:
             res["discharged"].append(n)
-    hits = grep_forbidden()
+    hits = grep_forbidden(prop)
     if hits:
         res["failed"].append(("<source scan>", "forbidden construct: " + "; ".join(hits[:5])))
     return res
